@@ -149,6 +149,7 @@ func run(cfg *runCfg, mode string) int {
 		re = regexp.MustCompile(cfg.fnRe)
 	}
 	var keys []string
+	preErrors := 0
 	for k, ct := range cs.Funcs {
 		if ct.Pkg == "" || ct.Trusted {
 			continue
@@ -159,7 +160,8 @@ func run(cfg *runCfg, mode string) int {
 				continue
 			}
 			fmt.Fprintf(os.Stderr, "ENGINE-ERROR: contract for unknown function %s (%s:%d)\n", k, ct.File, ct.Line)
-			return 2
+			preErrors++
+			continue
 		}
 		if cfg.prop != "" && !contractMentions(ct, cfg.prop) && !protoMentions(cs, ct.Pkg, cfg.prop) && !objInvMentions(cs, ct.Pkg, cfg.prop) {
 			continue
@@ -173,7 +175,7 @@ func run(cfg *runCfg, mode string) int {
 
 	var results []*fnResult
 	var allObls []*Obligation
-	engineErrors := 0
+	engineErrors := preErrors
 	for _, k := range keys {
 		fn := g.funcs[k]
 		ct := cs.Funcs[k]
@@ -182,9 +184,9 @@ func run(cfg *runCfg, mode string) int {
 		r := &fnResult{key: k, fx: fx, err: err}
 		results = append(results, r)
 		if err != nil {
+			// the function is not verified; obligations generated before the error are still checked
 			fmt.Fprintf(os.Stderr, "ENGINE-ERROR: %v\n", err)
 			engineErrors++
-			continue
 		}
 		for _, w := range fx.warnings {
 			fmt.Fprintf(os.Stderr, "ENGINE-ERROR: %s\n", w)
